@@ -66,8 +66,28 @@ def thread_map_entries(repo: Repo, run: Run) -> None:
     run.floor("R9", "thread-map obligations taken over from C02", n, 4)
 
 
+def string_index_obligations(repo: Repo, run: Run) -> None:
+    """"every log record ... with its strings resolved through the dump's string index": which fields of a record are numbers
+    of the string index, and that each is replaced by `log_strings[number]`, is C16/R6 - a necessary condition here."""
+    from . import c16
+    probe = Run("C16", run.tier, run.repo_root)
+    try:
+        c16.check(repo, probe)
+    except AnalysisError:
+        pass            # the floor below fails if the obligations were not reached
+    n = 0
+    for o in probe.obligations:
+        if o["rule"] == "R6" and "through the string index" in o["construct"]:
+            n += 1
+            run.ob("R10", o["module"], o["scope"], f"log record strings (C16/R6): {o['construct']}", o["ok"],
+                   (o.get("what", "") + " - the log records parse_v3 yields then carry a string number (or the wrong text) instead of "
+                    "the text the dump's string index gives for it") if not o["ok"] else "", nontrivial=False)
+    run.floor("R10", "string-index obligations taken over from C16", n, 9)
+
+
 def check(repo: Repo, run: Run) -> None:
     thread_map_entries(repo, run)
+    string_index_obligations(repo, run)
     interp = sym.Interp(repo)
     mod = repo.module("kd_buf_parser")
     kb = repo.cls("kd_buf_parser", "KdBufParser")
@@ -296,8 +316,19 @@ def check(repo: Repo, run: Run) -> None:
     if not landed:
         raise AnalysisError("parse_v3: no store of an additional-data block under a `block.tag == TRACEV3_...` test was recognised "
                             "(dispatch through a table of methods, a helper object, ...): the section mapping is not decided")
+    computed_stores = [c for c in rec.calls if dl.id in c.loops and c.func == T("builtin", ("setattr",)) and len(c.args) == 3
+                       and c.args[1].op != "const"] + \
+        [e_ for e_ in rec.effects if dl.id in e_.loops and e_.kind == "sub-store"
+         and sym.pretty(e_.path if e_.path is not None else e_.base).endswith(("__dict__", "vars(self)"))]
     n_dispatch = 0
     for name in sorted(tags):
+        if name not in SCAN_TAGS and not landed.get(name) and computed_stores:
+            # `setattr(self, TABLE[block.tag], ...)`: sections stored under a name computed from the tag - which section lands
+            # where is not read off the code by these rules
+            run.floor_failures.append(f"C03/R3: the dispatch loop stores through a computed attribute name (line {computed_stores[0].lineno}); "
+                                      f"where blocks tagged {name} land is not decided")
+            n_dispatch += 1
+            continue
         if name in SCAN_TAGS:
             used = any(sym.contains(a, const(tags[name])) for c in rec.calls for a in c.args) or \
                 any(sym.contains(c_, const(tags[name])) for e_ in outer.exits for c_, _ in e_[1])
